@@ -43,15 +43,17 @@ def _busy_kind(r: dict[str, Any]) -> str:
     return "none"
 
 
-def execute(ex: Execution, wname: str, backend: str, idle_timeout: float) -> tuple[Any, list[Any]]:
+def execute(ex: Execution, wname: str, backend: str, idle_timeout: float, yielding: bool = False) -> tuple[Any, list[Any]]:
     spec = WORKFLOWS[wname]
     sh.clear_graveyard()
     sh.reset_ids()
     ih.reset()
     store = sh.make_store(backend)
+    if yielding:
+        sh.make_yielding(store)
     v: list[Any] = []
     w = {"stack": "in_process", "workflow": wname}
-    cfg = RunConfig(max_actions=70, allow_time=True)
+    cfg = RunConfig(max_actions=90 if yielding else 70, allow_time=True)
     with EngineExec(ex, cfg) as e:
         stack = sh.Stack(store, idle_timeout=idle_timeout, wrap_basic=MonRuntime)
         wf = spec["make"]()(timeout=None)
@@ -274,6 +276,10 @@ def programs(tier: str) -> list[Program]:
                 ps.append(Program(f"in_process/{wname}/{backend}/idle_timeout={it}", {"workflow": wname, "backend": backend, "idle_timeout": it},
                                   (lambda ex, wname=wname, backend=backend, it=it: execute(ex, wname, backend, it)),
                                   max_dev=(3 if q else 5)))
+    # a store whose handler reads really suspend (network store): other tasks run between a read and what follows it
+    for backend in (("memory",) if q else ("memory", "sqlite")):
+        ps.append(Program(f"in_process/wait1/{backend}/yielding_store", {"workflow": "wait1", "backend": backend, "yielding": True},
+                          (lambda ex, backend=backend: execute(ex, "wait1", backend, 2.0, True)), max_dev=(3 if q else 4)))
     for n in (1, 2):
         for crash in (False, True):
             ps.append(Program(f"dbos_two_replicas/waits={n}/releaser_crashes={crash}", {"waits": n, "crash": crash},
